@@ -1,10 +1,104 @@
 // Contract stubs for the few floating-point operations the anchored code uses (DESIGN 4.7).
+// float64 values are real-valued SMT terms; + - * / are exact real operations (IEEE rounding is not modelled, so only
+// sign / zero / coarse-bound claims may be drawn from them - each harness that relies on this says so).
 package main
 
 import (
+	"fmt"
+	"math"
+	"math/big"
+	"strings"
+
 	"golang.org/x/tools/go/ssa"
 )
 
+func (s *Solver) freshReal(prefix string) string {
+	s.sh.declMu.Lock()
+	s.sh.declN++
+	n := fmt.Sprintf("%s_%d", sanitize(prefix), s.sh.declN)
+	s.sh.decls = append(s.sh.decls, "(declare-const "+n+" Real)")
+	s.sh.declMu.Unlock()
+	return n
+}
+
 func (e *Exec) decFromFormattedFloat(s *State, f *Frame, x *ssa.Call, sy SymStr) ([]*State, bool) {
-	panic("float formatting contract not implemented yet")
+	ft := sy.T[len("(fmtfloat18 ") : len(sy.T)-1]
+	m := e.sol.fresh("fdec", false)
+	// the parsed decimal is within one unit of the 18th place of the formatted float, keeps its sign, and is exact at zero
+	scaled := "(* " + ft + " 1000000000000000000.0)"
+	s.PC = append(s.PC,
+		fmt.Sprintf("(<= (- (to_real %s) %s) 1.0)", m, scaled),
+		fmt.Sprintf("(<= (- %s (to_real %s)) 1.0)", scaled, m),
+		fmt.Sprintf("(=> (= %s 0.0) (= %s 0))", ft, m),
+		fmt.Sprintf("(=> (> %s 0.0) (>= %s 0))", ft, m),
+		fmt.Sprintf("(=> (< %s 0.0) (<= %s 0))", ft, m),
+		fmt.Sprintf("(and (< %s %s) (> %s (- %s)))", m, limInt, m, limInt))
+	e.stats["float-contract:format+parse"]++
+	return ret(f, x, Tuple{BigV{T: m}, IfaceV{}})
+}
+
+func init() {
+	md := "(cosmossdk.io/math.LegacyDec)."
+	mustFloat := func(e *Exec, s *State, f *Frame, x *ssa.Call, a []Val) ([]*State, bool) {
+		t, ok := e.bigs(s, a[0])
+		if !ok {
+			return nil, false
+		}
+		if c, isC := asConst(t[0]); isC {
+			r := new(big.Rat).SetFrac(c, new(big.Int).Exp(big.NewInt(10), big.NewInt(18), nil))
+			fl, _ := r.Float64()
+			rr := new(big.Rat)
+			rr.SetFloat64(fl)
+			return ret(f, x, FloatV{T: ratTerm(rr)})
+		}
+		v := "(/ (to_real " + t[0] + ") 1000000000000000000.0)"
+		fl := e.sol.freshReal("f64")
+		eps := "(* (ite (>= " + v + " 0.0) " + v + " (- " + v + ")) (/ 1.0 4503599627370496.0))"
+		s.PC = append(s.PC, fmt.Sprintf("(<= (- %s %s) %s)", fl, v, eps), fmt.Sprintf("(<= (- %s %s) %s)", v, fl, eps),
+			fmt.Sprintf("(=> (>= %s 1.0) (>= %s 1.0))", v, fl)) // 1.0 is representable and conversion is monotone
+		e.stats["float-contract:MustFloat64"]++
+		return ret(f, x, FloatV{T: fl})
+	}
+	reg(md+"MustFloat64", mustFloat)
+	reg(md+"Float64", func(e *Exec, s *State, f *Frame, x *ssa.Call, a []Val) ([]*State, bool) {
+		fk, d := mustFloat(e, s, f, x, a)
+		if v, ok := f.Regs[x].(FloatV); ok {
+			f.Regs[x] = Tuple{v, IfaceV{}}
+		}
+		return fk, d
+	})
+	reg("math.Pow", func(e *Exec, s *State, f *Frame, x *ssa.Call, a []Val) ([]*State, bool) {
+		bx, by := a[0].(FloatV).T, a[1].(FloatV).T
+		p := e.sol.freshReal("pow")
+		s.PC = append(s.PC,
+			fmt.Sprintf("(=> (= %s 0.0) (= %s 1.0))", by, p),
+			fmt.Sprintf("(=> (and (>= %s 1.0) (>= %s 0.0)) (>= %s 1.0))", bx, by, p),
+			fmt.Sprintf("(=> (>= %s 0.0) (>= %s 0.0))", bx, p))
+		e.stats["float-contract:math.Pow"]++
+		return ret(f, x, FloatV{T: p})
+	})
+	reg("math.Floor", func(e *Exec, s *State, f *Frame, x *ssa.Call, a []Val) ([]*State, bool) {
+		v := a[0].(FloatV).T
+		q := e.sol.fresh("floor", false)
+		s.PC = append(s.PC, fmt.Sprintf("(and (<= (to_real %s) %s) (< %s (+ (to_real %s) 1.0)))", q, v, v, q))
+		return ret(f, x, FloatV{T: "(to_real " + q + ")"})
+	})
+	reg("math.Pow10", func(e *Exec, s *State, f *Frame, x *ssa.Call, a []Val) ([]*State, bool) {
+		c, ok := asConst(a[0].(Sym).S)
+		if !ok {
+			panic("math.Pow10 of a symbolic exponent")
+		}
+		r := new(big.Rat)
+		r.SetFloat64(math.Pow10(int(c.Int64())))
+		return ret(f, x, FloatV{T: ratTerm(r)})
+	})
+	reg("strconv.FormatFloat", func(e *Exec, s *State, f *Frame, x *ssa.Call, a []Val) ([]*State, bool) {
+		fm, _ := asConst(a[1].(Sym).S)
+		pr, _ := asConst(a[2].(Sym).S)
+		if fm == nil || pr == nil || fm.Int64() != 'f' || pr.Int64() != 18 {
+			panic("FormatFloat with a format other than ('f', 18)")
+		}
+		return ret(f, x, SymStr{T: "(fmtfloat18 " + a[0].(FloatV).T + ")"})
+	})
+	_ = strings.Contains
 }
